@@ -1,10 +1,10 @@
-(** Extraction of the executable model of pkg/socketcan (Wire.v, Receiver.v, Transmitter.v, Process.v) and of
+(** Extraction of the executable model of pkg/socketcan (Wire.v, Receiver.v, Transmitter.v, Process.v, Glue.v) and of
     the executable specifications (WireSpec.v, ReceiverSpec.v) for the C06/C07 driver.
     Directives used: those of ExtrOcamlBasic only (bool, option, unit, prod, list, sumbool,
     sumor -> OCaml types; fst/snd/andb/orb/negb inlined). Z / positive / nat stay Coq inductives. *)
 From Coq Require Extraction ExtrOcamlBasic.
 From Coq Require Import ZArith List.
-From CanVerif Require Import Socketcan.Wire Socketcan.WireSpec Socketcan.Receiver Socketcan.ReceiverSpec Socketcan.Transmitter Socketcan.Process Socketcan.ScanBuffer.
+From CanVerif Require Import Socketcan.Wire Socketcan.WireSpec Socketcan.Receiver Socketcan.ReceiverSpec Socketcan.Transmitter Socketcan.Process Socketcan.ScanBuffer Socketcan.Glue.
 Extraction Language OCaml.
 Extraction "model.ml"
   validate S_validb wf_frameb block16b transmit_bytes S_layout receive16 S_decode
@@ -12,4 +12,5 @@ Extraction "model.ml"
   transmit transmit_all
   receivers_run transmitters_run see see_tx addressed_to
   geom0 prepare offered after_read
+  fileconn_run udp_run dial_run dial0 dial_finished dial_returned_conn unwrap_path_error
   Z.add Z.mul Z.sub Z.ltb Z.leb Z.eqb Z.of_nat Z.to_nat Z.pow Z.modulo Z.div.
